@@ -15,11 +15,20 @@ package gmtls
 //   3. record / handshake layer drivers
 //   4. VerifConn: scriptable endpoint on the real record layer (C08)
 //   5. VerifParseMessage: canonical field printing of the handshake message parsers (C15 PM cases)
+//   6. VerifMarshalMessage: marshal() of a message built from canonical field strings (C15 PW cases)
+//   7. VerifPickSignatureAlgorithm and the digest selection hooks (C08 PA / PD cases)
 
 import (
+	"crypto"
+	"crypto/ecdsa"
+	"crypto/elliptic"
+	"crypto/rsa"
+	"math/big"
 	"net"
+	"sync"
 	"sync/atomic"
 
+	"github.com/tjfoc/gmsm/sm2"
 	"github.com/tjfoc/gmsm/x509"
 )
 
@@ -709,4 +718,323 @@ func VerifParseMessage(typ uint8, hasSigAndHash bool, data []byte) (known bool, 
 		return false, false, nil
 	}
 	return true, ok, fields
+}
+
+// ---------------------------------------------------------------------------
+// 6. build a handshake message from canonical field strings and marshal it (C15 PW cases)
+// ---------------------------------------------------------------------------
+
+func verifUnHex(s string) ([]byte, bool) {
+	if s == "-" {
+		return nil, true
+	}
+	if len(s) == 0 || len(s)%2 != 0 {
+		return nil, false
+	}
+	out := make([]byte, len(s)/2)
+	for i := 0; i < len(s); i++ {
+		var v byte
+		switch c := s[i]; {
+		case c >= '0' && c <= '9':
+			v = c - '0'
+		case c >= 'a' && c <= 'f':
+			v = c - 'a' + 10
+		default:
+			return nil, false
+		}
+		if i%2 == 0 {
+			out[i/2] = v << 4
+		} else {
+			out[i/2] |= v
+		}
+	}
+	return out, true
+}
+
+func verifSplit(s string, sep byte) []string {
+	var out []string
+	start := 0
+	for i := 0; i <= len(s); i++ {
+		if i == len(s) || s[i] == sep {
+			out = append(out, s[start:i])
+			start = i + 1
+		}
+	}
+	return out
+}
+
+func verifUnU16(s string) (uint16, bool) {
+	b, ok := verifUnHex(s)
+	if !ok || len(b) != 2 {
+		return 0, false
+	}
+	return uint16(b[0])<<8 | uint16(b[1]), true
+}
+
+func verifUnU16List(s string) ([]uint16, bool) {
+	if s == "-" {
+		return nil, true
+	}
+	var out []uint16
+	for _, p := range verifSplit(s, '.') {
+		v, ok := verifUnU16(p)
+		if !ok {
+			return nil, false
+		}
+		out = append(out, v)
+	}
+	return out, true
+}
+
+func verifUnBytesList(s string) ([][]byte, bool) {
+	if s == "-" {
+		return nil, true
+	}
+	var out [][]byte
+	for _, p := range verifSplit(s, ',') {
+		if p == "." {
+			out = append(out, []byte{})
+			continue
+		}
+		b, ok := verifUnHex(p)
+		if !ok || len(b) == 0 {
+			return nil, false
+		}
+		out = append(out, b)
+	}
+	return out, true
+}
+
+func verifUnStringList(s string) ([]string, bool) {
+	l, ok := verifUnBytesList(s)
+	if !ok {
+		return nil, false
+	}
+	var out []string
+	for _, b := range l {
+		out = append(out, string(b))
+	}
+	return out, true
+}
+
+func verifUnBool(s string) (bool, bool) { return s == "1", s == "0" || s == "1" }
+
+func verifUnByte(s string) (byte, bool) {
+	b, ok := verifUnHex(s)
+	if !ok || len(b) != 1 {
+		return 0, false
+	}
+	return b[0], true
+}
+
+func verifSameFields(a, b []string) bool {
+	if len(a) != len(b) {
+		return false
+	}
+	for i := range a {
+		if a[i] != b[i] {
+			return false
+		}
+	}
+	return true
+}
+
+// VerifMarshalMessage builds a fresh message struct (raw == nil) of type typ
+// ("1","2","4","11","12","13","13g","14","15","16","20","22","67"; "13g" is
+// certificateRequestMsgGM with the fields certificateTypes certificateAuthorities)
+// from the canonical field strings of VerifParseMessage, calls marshal() and
+// returns the bytes.  rtOK: unmarshal of a copy of the bytes on a fresh struct
+// of the same type succeeds and prints exactly the input fields.  known is false
+// for an unknown type or field strings that do not decode.  No recover here.
+func VerifMarshalMessage(typ string, hasSigAndHash bool, fields []string) (known bool, out []byte, rtOK bool) {
+	bad := false
+	hexf := func(i int) []byte {
+		b, ok := verifUnHex(fields[i])
+		bad = bad || !ok
+		return b
+	}
+	boolf := func(i int) bool {
+		b, ok := verifUnBool(fields[i])
+		bad = bad || !ok
+		return b
+	}
+	u16f := func(i int) uint16 {
+		v, ok := verifUnU16(fields[i])
+		bad = bad || !ok
+		return v
+	}
+	u16l := func(i int) []uint16 {
+		v, ok := verifUnU16List(fields[i])
+		bad = bad || !ok
+		return v
+	}
+	bytesl := func(i int) [][]byte {
+		v, ok := verifUnBytesList(fields[i])
+		bad = bad || !ok
+		return v
+	}
+	strl := func(i int) []string {
+		v, ok := verifUnStringList(fields[i])
+		bad = bad || !ok
+		return v
+	}
+	bytef := func(i int) byte {
+		v, ok := verifUnByte(fields[i])
+		bad = bad || !ok
+		return v
+	}
+	want := map[string]int{"1": 17, "2": 13, "4": 1, "11": 1, "12": 1, "13": 3, "13g": 2, "14": 0, "15": 2, "16": 1, "20": 1, "22": 2, "67": 1}
+	n, ok := want[typ]
+	if !ok || len(fields) != n {
+		return false, nil, false
+	}
+	var m handshakeMessage
+	var wire uint8
+	switch typ {
+	case "1":
+		h := &clientHelloMsg{vers: u16f(0), random: hexf(1), sessionId: hexf(2), cipherSuites: u16l(3), compressionMethods: hexf(4),
+			nextProtoNeg: boolf(5), serverName: string(hexf(6)), ocspStapling: boolf(7), supportedPoints: hexf(9), ticketSupported: boolf(10),
+			sessionTicket: hexf(11), secureRenegotiationSupported: boolf(13), secureRenegotiation: hexf(14), alpnProtocols: strl(15), scts: boolf(16)}
+		for _, c := range u16l(8) {
+			h.supportedCurves = append(h.supportedCurves, CurveID(c))
+		}
+		for _, s := range u16l(12) {
+			h.supportedSignatureAlgorithms = append(h.supportedSignatureAlgorithms, SignatureScheme(s))
+		}
+		m, wire = h, typeClientHello
+	case "2":
+		m = &serverHelloMsg{vers: u16f(0), random: hexf(1), sessionId: hexf(2), cipherSuite: u16f(3), compressionMethod: bytef(4),
+			nextProtoNeg: boolf(5), nextProtos: strl(6), ocspStapling: boolf(7), ticketSupported: boolf(8),
+			secureRenegotiationSupported: boolf(9), secureRenegotiation: hexf(10), alpnProtocol: string(hexf(11)), scts: bytesl(12)}
+		wire = typeServerHello
+	case "4":
+		m, wire = &newSessionTicketMsg{ticket: hexf(0)}, typeNewSessionTicket
+	case "11":
+		m, wire = &certificateMsg{certificates: bytesl(0)}, typeCertificate
+	case "12":
+		m, wire = &serverKeyExchangeMsg{key: hexf(0)}, typeServerKeyExchange
+	case "13":
+		r := &certificateRequestMsg{hasSignatureAndHash: hasSigAndHash, certificateTypes: hexf(0), certificateAuthorities: bytesl(2)}
+		for _, s := range u16l(1) {
+			r.supportedSignatureAlgorithms = append(r.supportedSignatureAlgorithms, SignatureScheme(s))
+		}
+		m, wire = r, typeCertificateRequest
+	case "13g":
+		m, wire = &certificateRequestMsgGM{certificateTypes: hexf(0), certificateAuthorities: bytesl(1)}, typeCertificateRequest
+	case "14":
+		m, wire = &serverHelloDoneMsg{}, typeServerHelloDone
+	case "15":
+		m = &certificateVerifyMsg{hasSignatureAndHash: hasSigAndHash, signatureAlgorithm: SignatureScheme(u16f(0)), signature: hexf(1)}
+		wire = typeCertificateVerify
+	case "16":
+		m, wire = &clientKeyExchangeMsg{ciphertext: hexf(0)}, typeClientKeyExchange
+	case "20":
+		m, wire = &finishedMsg{verifyData: hexf(0)}, typeFinished
+	case "22":
+		m, wire = &certificateStatusMsg{statusType: bytef(0), response: hexf(1)}, typeCertificateStatus
+	case "67":
+		m, wire = &nextProtoMsg{proto: string(hexf(0))}, typeNextProtocol
+	}
+	if bad {
+		return false, nil, false
+	}
+	out = append([]byte(nil), m.marshal()...)
+	if typ == "13g" {
+		g := &certificateRequestMsgGM{}
+		ok := g.unmarshal(append([]byte(nil), out...))
+		rtOK = ok && verifSameFields(fields, []string{verifHex(g.certificateTypes), verifBytesList(g.certificateAuthorities)})
+		return true, out, rtOK
+	}
+	_, ok, got := VerifParseMessage(wire, hasSigAndHash, out)
+	return true, out, ok && verifSameFields(fields, got)
+}
+
+// ---------------------------------------------------------------------------
+// 7. auth.go decision logic: pickSignatureAlgorithm and the digest selection (C08 PA / PD cases)
+// ---------------------------------------------------------------------------
+
+type verifOtherKey struct{}
+
+var verifPickKeys = struct {
+	once  sync.Once
+	rsa   *rsa.PublicKey
+	ecdsa *ecdsa.PublicKey
+	sm2   *sm2.PublicKey
+}{}
+
+// VerifPickSignatureAlgorithm calls pickSignatureAlgorithm with a public key of the
+// kind pk ("rsa", "ecdsa" (P-256), "sm2" (*sm2.PublicKey), anything else: a value of
+// an unsupported type).  hash is uint(hashFunc).  No recover here.
+func VerifPickSignatureAlgorithm(pk string, peer, ours []uint16, vers uint16) (sigAlg uint16, sigType uint8, hash uint, err error) {
+	verifPickKeys.once.Do(func() {
+		verifPickKeys.rsa = &rsa.PublicKey{N: new(big.Int).Lsh(big.NewInt(1), 2047), E: 65537}
+		p := elliptic.P256().Params()
+		verifPickKeys.ecdsa = &ecdsa.PublicKey{Curve: elliptic.P256(), X: p.Gx, Y: p.Gy}
+		q := sm2.P256Sm2().Params()
+		verifPickKeys.sm2 = &sm2.PublicKey{Curve: sm2.P256Sm2(), X: q.Gx, Y: q.Gy}
+	})
+	var key crypto.PublicKey
+	switch pk {
+	case "rsa":
+		key = verifPickKeys.rsa
+	case "ecdsa":
+		key = verifPickKeys.ecdsa
+	case "sm2":
+		key = verifPickKeys.sm2
+	default:
+		key = verifOtherKey{}
+	}
+	conv := func(l []uint16) []SignatureScheme {
+		var out []SignatureScheme
+		for _, a := range l {
+			out = append(out, SignatureScheme(a))
+		}
+		return out
+	}
+	a, t, h, e := pickSignatureAlgorithm(key, conv(peer), conv(ours), vers)
+	return uint16(a), t, uint(h), e
+}
+
+func verifAnySuite(id uint16) *cipherSuite {
+	for _, s := range gmCipherSuites {
+		if s.id == id {
+			return s
+		}
+	}
+	for _, s := range cipherSuites {
+		if s.id == id {
+			return s
+		}
+	}
+	panic("verif: unknown cipher suite")
+}
+
+// VerifClientCertDigest: the digest the SERVER checks a CertificateVerify against.
+// A finishedHash for (vers, suite) - newFinishedHashGM for VersionGMSSL, as every GM
+// handshake state does, newFinishedHash otherwise - is fed the transcript, then
+// hashForClientCertificate(sigType, crypto.Hash(hash), master) is called.
+func VerifClientCertDigest(vers uint16, suite uint16, sigType uint8, hash uint, transcript []byte, master []byte) ([]byte, error) {
+	s := verifAnySuite(suite)
+	var fh finishedHash
+	if vers == VersionGMSSL {
+		fh = newFinishedHashGM(s)
+	} else {
+		fh = newFinishedHash(vers, s)
+	}
+	fh.Write(transcript)
+	return fh.hashForClientCertificate(sigType, crypto.Hash(hash), master)
+}
+
+// VerifServerKeyExchangeDigest calls hashForServerKeyExchange.
+func VerifServerKeyExchangeDigest(vers uint16, sigType uint8, hash uint, slices [][]byte) ([]byte, error) {
+	return hashForServerKeyExchange(sigType, crypto.Hash(hash), vers, slices...)
+}
+
+// VerifGMClientCertDigest: what the GM client signs in CertificateVerify
+// (gm_handshake_client_double.go doFullHandshake: hs.finishedHash.client.Sum(nil),
+// hs.finishedHash being newFinishedHashGM(hs.suite)).
+func VerifGMClientCertDigest(transcript []byte) []byte {
+	fh := newFinishedHashGM(verifAnySuite(GMTLS_ECC_SM4_CBC_SM3))
+	fh.Write(transcript)
+	return fh.client.Sum(nil)
 }
